@@ -571,7 +571,8 @@ def process_extract(gen, sec, vu_path):
     sha = hashlib.sha256(item.text.encode()).hexdigest()[:16]
     gen.items.append({'item': item_name, 'short': short, 'file': 'jmespath/src/' + relfile,
                       'lines': [item.first_line, item.last_line], 'sha256_16': sha,
-                      'external': external, 'has_contract': 'contract' in dnames,
+                      'external': external or any(d['name'] == 'attr' and 'verifier::external' in d['arg'] for d in dirs),
+                      'has_contract': 'contract' in dnames,
                       'contract_name': next((d.get('contract_name') for d in dirs if d.get('contract_name')), None),
                       'serves': serves})
     return short
